@@ -128,9 +128,14 @@ def blob_strategy(tier):
         if k == 'read':
             return st.tuples(st.just('read'), i)
         return st.tuples(st.just(k))
-    mix = ['write', 'write', 'write', 'create', 'commit', 'commit', 'commit', 'pack', 'pack', 'pack', 'undo', 'observe', 'read']
-    return st.fixed_dictionaries({'mode': st.just('blob'), 'kind': st.sampled_from(['bmap', 'bmap', 'fs']),
-                                  'ops': st.lists(st.one_of(*[mk(k) for k in mix]).map(list), min_size=4, max_size=n)})
+    mix = ['write', 'write', 'write', 'create', 'commit', 'commit', 'commit', 'pack', 'pack', 'pack', 'undo', 'undo2', 'observe', 'read']
+    free = st.lists(st.one_of(*[mk(k) for k in mix]).map(list), min_size=4, max_size=n)
+    # two records of one blob in one transaction before the pack time (several transactions undone at once)
+    phased = st.tuples(i, d, d, st.booleans(), st.integers(0, 8), st.lists(st.one_of(*[mk(k) for k in mix]).map(list), max_size=4)).map(
+        lambda t: [['write', t[0], 'w', t[1]], ['commit'], ['write', t[0], 'a', t[2]], ['commit'], ['undo2']]
+        + ([['write', t[0], 'a', t[1]], ['commit']] if t[3] else []) + [['pack', t[4]], ['read', t[0]], ['observe', True]] + t[5])
+    return st.fixed_dictionaries({'mode': st.just('blob'), 'kind': st.sampled_from(['bmap', 'fs', 'fs']),
+                                  'ops': st.one_of(free, free.map(list), phased)})
 
 
 def execute_blob(case):
